@@ -32,13 +32,13 @@ var c15Engines = []string{"memkv", "tikv", "badger", "memkv", "tikv", "badger-re
 func init() {
 	Registry["C15"] = &Prop{
 		Plan: func(tier string) Plan {
-			return Plan{Level: "exploration", NCases: pick(tier, 48, 1200), Batch: 4, CaseTimeout: 120,
+			return Plan{Level: "exploration", NCases: pick(tier, 48, 3600), Batch: 4, CaseTimeout: 120,
 				Rule: "one case = an old leader elected through the real resourcelock.Interface (Get->Create, then the on-elected action of pkg/server/service/leader: parse the engine timestamp from Describe() and SetCurrentRevision), a PRNG history with bursts of failed writes (which consume revisions without touching the engine) and occasional lock renewals, the old leader stopping after a PRNG request, then a new backend over the same store (fail-over on memkv/TiKV mock/Badger — in half of the fail-over cases the new leader has been serving concurrent follower reads, i.e. adopting the old leader's revision from 8 goroutines, all along; close+reopen of the Badger directory for restart) elected the same way (Get->Update). " +
 					"oracle: the new leader's start revision and the first revisions it hands out exceed every revision in the engine dump (version keys and index values); guarded update/delete of pre-existing keys at their current revision succeed; List(rev=0) on the new leader equals the reference state. " +
 					"non-trivial = history with >=3 failed writes and >=2 keys alive at the hand-over; distinct by (engine, outcome vector)",
 				Assumptions: []string{"in 7 of 8 cases the election is driven in-process in client-go's call order and the on-elected action of leader.go is applied by the harness (the real Campaign loop cannot be stopped without killing the process); every 8th case restarts the node through the REAL Campaign / on-elected callback (server.NewServer) and talks to it over gRPC",
 					"lease timing is not modelled: the old leader is simply never heard from again"},
-				MinConcl: pick(tier, 36, 1000)}
+				MinConcl: pick(tier, 36, 3000)}
 		},
 		Name: func(c *harness.Case) string {
 			if c.Index%8 == 7 {
